@@ -127,16 +127,28 @@ fn header_mismatch<T: DiffableStr + ?Sized>(diff: &TextDiff<T>, radius: usize) -
     None
 }
 
-fn lines_mismatch(c: &TextCase, radius: usize) -> Result<(Option<String>, usize, u64), String> {
+/// first mismatch of a line diff: the op list itself (exact positions of TextDiff::ops), then the
+/// consumer view (hunk headers).  `Some((primary, message))`.
+fn text_mismatch<T: DiffableStr + ?Sized>(d: &TextDiff<T>, radius: usize) -> Option<(bool, String)> {
+    if let Err(m) = tuple_consistent(d.ops()) {
+        return Some((true, m));
+    }
+    if let Err((primary, m)) = carried_exact(d.ops(), 0, 0) {
+        return Some((primary, format!("TextDiff::ops {:?}: {}", d.ops(), m)));
+    }
+    header_mismatch(d, radius).map(|m| (false, m))
+}
+
+fn lines_mismatch(c: &TextCase, radius: usize) -> Result<(Option<(bool, String)>, usize, u64), String> {
     let cfg = config(c.alg);
     guard(|| {
         similar::verif::swap::reset_swaps();
         if c.use_bytes() {
             let d = cfg.diff_lines(&c.old.0[..], &c.new.0[..]);
-            (header_mismatch(&d, radius), d.ops().len(), similar::verif::swap::swaps())
+            (text_mismatch(&d, radius), d.ops().len(), similar::verif::swap::swaps())
         } else {
             let d = cfg.diff_lines(c.old.as_str().unwrap(), c.new.as_str().unwrap());
-            (header_mismatch(&d, radius), d.ops().len(), similar::verif::swap::swaps())
+            (text_mismatch(&d, radius), d.ops().len(), similar::verif::swap::swaps())
         }
     })
 }
@@ -151,7 +163,8 @@ fn check_lines(c: &TextCase, obs: &mut Obs) -> Verdict {
             obs.class_if(swaps > 0, "compaction swap reached");
             Verdict::Pass
         }
-        Ok((Some(m), _, _)) => {
+        Ok((Some((true, m)), _, _)) => Verdict::Fail(format!("{} lines: {}", alg_name(c.alg), m)),
+        Ok((Some((false, m)), _, _)) => {
             similar::verif::swap::set_repair(true);
             let r = lines_mismatch(c, radius);
             similar::verif::swap::set_repair(false);
@@ -161,7 +174,7 @@ fn check_lines(c: &TextCase, obs: &mut Obs) -> Verdict {
                     obs.class("known finding D7 hit");
                     Verdict::Known(D7)
                 }
-                Ok((Some(m2), _, _)) => Verdict::Fail(format!("{} radius {}: {} — persists with the swap repair on ({})", alg_name(c.alg), radius, m, m2)),
+                Ok((Some((_, m2)), _, _)) => Verdict::Fail(format!("{} radius {}: {} — persists with the swap repair on ({})", alg_name(c.alg), radius, m, m2)),
                 Err(p) => Verdict::Fail(format!("line diff with swap repair: {}", p)),
             }
         }
@@ -196,7 +209,7 @@ impl Prop for C11 {
     type Case = Case;
     const ID: &'static str = "C11";
     fn rule() -> String {
-        "cases = Seq(algorithm, old, new, ranges, capture entry point) without deadline | Lines(old, new, algorithm, radius) for the consumer view; enumeration of all pairs over {0,1} plus proptest mixture biased to repeats next to edits. Oracle: both indices of every op == range start + items consumed before it on that side; hunk headers computed by the library from first/last op == headers computed from the true extents. A carried-index / header mismatch that disappears when the cfg(similar_verif) swap repair is on is counted as known finding D7 and the search continues; any other mismatch is a violation. Non-trivial = op list contains a pure Delete or Insert (Seq) / at least 2 ops (Lines); distinct = distinct serialized case.".into()
+        "cases = Seq(algorithm, old, new, ranges, capture entry point) without deadline | Lines(old, new, algorithm, radius): exact positions of TextDiff::ops and the consumer view (hunk headers); enumeration of all pairs over {0,1} plus proptest mixture biased to repeats next to edits. Oracle: both indices of every op == range start + items consumed before it on that side; hunk headers computed by the library from first/last op == headers computed from the true extents. A carried-index / header mismatch that disappears when the cfg(similar_verif) swap repair is on is counted as known finding D7 and the search continues; any other mismatch is a violation. Non-trivial = op list contains a pure Delete or Insert (Seq) / at least 2 ops (Lines); distinct = distinct serialized case.".into()
     }
     fn assumptions() -> Vec<String> {
         vec![
